@@ -1,0 +1,134 @@
+//go:build verif
+
+// Read-only accessors and forwarders for the verification harness in /verif.
+// Compiled only with -tags verif; adds no behaviour to the library.
+
+package gws
+
+import (
+	"bytes"
+
+	"github.com/lxzan/gws/internal"
+)
+
+// VerifMaskXOR forwards to the internal masking routine.
+func VerifMaskXOR(b []byte, key []byte) { internal.MaskXOR(b, key) }
+
+// VerifMaskByByte forwards to the internal byte-wise masking routine.
+func VerifMaskByByte(b []byte, key []byte) { internal.MaskByByte(b, key) }
+
+// VerifWindow wraps a slideWindow constructed outside any connection.
+type VerifWindow struct{ w slideWindow }
+
+// NewVerifWindow returns an enabled window of capacity 2^bits (bits < 0: a disabled, zero-value window).
+func NewVerifWindow(bits int) *VerifWindow {
+	v := &VerifWindow{}
+	if bits >= 0 {
+		v.w.initialize(nil, bits)
+	}
+	return v
+}
+
+func (v *VerifWindow) Write(p []byte) (int, error) { return v.w.Write(p) }
+
+// Dict returns a copy of the window contents.
+func (v *VerifWindow) Dict() []byte { return append([]byte(nil), v.w.dict...) }
+
+func (v *VerifWindow) Size() int { return v.w.size }
+
+// VerifWindows returns copies of a connection's compression and decompression windows.
+func (c *Conn) VerifWindows() (cps []byte, cpsEnabled bool, dps []byte, dpsEnabled bool) {
+	c.mu.Lock()
+	defer c.mu.Unlock()
+	return append([]byte(nil), c.cpsWindow.dict...), c.cpsWindow.enabled,
+		append([]byte(nil), c.dpsWindow.dict...), c.dpsWindow.enabled
+}
+
+// VerifPD returns the negotiated permessage-deflate parameters of a connection.
+func (c *Conn) VerifPD() PermessageDeflate { return c.pd }
+
+// VerifIsServer reports the role of a connection.
+func (c *Conn) VerifIsServer() bool { return c.isServer }
+
+func VerifPermessageNegotiation(str string) PermessageDeflate { return permessageNegotiation(str) }
+
+func VerifGenRequestHeader(pd PermessageDeflate) string { return pd.genRequestHeader() }
+
+func VerifGenResponseHeader(pd PermessageDeflate) string { return pd.genResponseHeader() }
+
+// VerifServerPD normalises server options and returns what the server would negotiate for an offer.
+func VerifServerPD(opt *ServerOption, extensions string) (normalised, negotiated PermessageDeflate) {
+	u := NewUpgrader(new(BuiltinEventHandler), opt)
+	return u.option.PermessageDeflate, u.getPermessageDeflate(extensions)
+}
+
+// VerifClientPD normalises client options and returns what the client would hold for a response.
+func VerifClientPD(opt *ClientOption, extensions string) (normalised, negotiated PermessageDeflate) {
+	o := initClientOption(opt)
+	c := &connector{option: o}
+	return o.PermessageDeflate, c.getPermessageDeflate(extensions)
+}
+
+func VerifComputeAcceptKey(key string) string { return internal.ComputeAcceptKey(key) }
+
+func VerifSplit(s, sep string) []string { return internal.Split(s, sep) }
+
+func VerifCheckEncoding(enabled bool, opcode uint8, payload []byte) bool {
+	return internal.CheckEncoding(enabled, opcode, payload)
+}
+
+// VerifPoolGet / VerifPoolPut give the harness access to the shared buffer pool.
+func VerifPoolGet(n int) *bytes.Buffer { return binaryPool.Get(n) }
+
+func VerifPoolPut(b *bytes.Buffer) { binaryPool.Put(b) }
+
+// VerifDeque is an int deque from the internal package, usable from outside the module tree.
+type VerifDeque struct{ d *internal.Deque[int] }
+
+// NewVerifDeque returns New(capacity), or the zero-value deque when capacity < 0.
+func NewVerifDeque(capacity int) *VerifDeque {
+	if capacity < 0 {
+		return &VerifDeque{d: new(internal.Deque[int])}
+	}
+	return &VerifDeque{d: internal.New[int](capacity)}
+}
+
+func (v *VerifDeque) Len() int               { return v.d.Len() }
+func (v *VerifDeque) Reset()                 { v.d.Reset() }
+func (v *VerifDeque) PushFront(x int) uint32 { return uint32(v.d.PushFront(x).Addr()) }
+func (v *VerifDeque) PushBack(x int) uint32  { return uint32(v.d.PushBack(x).Addr()) }
+func (v *VerifDeque) PopFront() int          { return v.d.PopFront() }
+func (v *VerifDeque) PopBack() int           { return v.d.PopBack() }
+func (v *VerifDeque) MoveToBack(a uint32)    { v.d.MoveToBack(internal.Pointer(a)) }
+func (v *VerifDeque) MoveToFront(a uint32)   { v.d.MoveToFront(internal.Pointer(a)) }
+func (v *VerifDeque) Update(a uint32, x int) { v.d.Update(internal.Pointer(a), x) }
+func (v *VerifDeque) Remove(a uint32)        { v.d.Remove(internal.Pointer(a)) }
+func (v *VerifDeque) Clone() *VerifDeque     { return &VerifDeque{d: v.d.Clone()} }
+func (v *VerifDeque) FrontAddr() uint32      { return addrOf(v.d.Front()) }
+func (v *VerifDeque) BackAddr() uint32       { return addrOf(v.d.Back()) }
+func (v *VerifDeque) InsertAfter(x int, m uint32) uint32 {
+	return addrOf(v.d.InsertAfter(x, internal.Pointer(m)))
+}
+func (v *VerifDeque) InsertBefore(x int, m uint32) uint32 {
+	return addrOf(v.d.InsertBefore(x, internal.Pointer(m)))
+}
+
+// Items returns (addr, value) pairs in iteration order.
+func (v *VerifDeque) Items() (addrs []uint32, vals []int) {
+	v.d.Range(func(e *internal.Element[int]) bool {
+		addrs = append(addrs, uint32(e.Addr()))
+		vals = append(vals, e.Value())
+		return true
+	})
+	return
+}
+
+// ValueAt returns the value stored in the slot addr.
+func (v *VerifDeque) ValueAt(a uint32) int { return v.d.Get(internal.Pointer(a)).Value() }
+
+func addrOf(e *internal.Element[int]) uint32 {
+	if e == nil {
+		return 0
+	}
+	return uint32(e.Addr())
+}
